@@ -12,7 +12,7 @@ from upword import MODES, PARAM_SETS, PW, SW, Expand, Peel, Reduce, Rot, SepSpli
 
 
 def strategies(mode):
-    return [Expand(mode), Peel(mode), Reduce(), Swap(), Rot(mode, 1, False), Rot(mode, 2, True), Rot(mode, 0, True, "bac"), SepUnion(mode), SepSplit(mode)]
+    return [Expand(mode), Peel(mode), Reduce(), Swap(), Rot(mode, 1, False), Rot(mode, 2, True), Rot(mode, 0, True, "bac"), Rot("canon", 1, True), Rot("canon", 0, True, "bac"), SepUnion(mode), SepSplit(mode)]
 
 
 def forms(rule):
